@@ -316,8 +316,10 @@ def judge(r):
     return corr_ok, oracle_ok, bad
 
 
-def shrink(model, case, pred, impl_env=None, spec_needs_impl=False, budget=150):
-    """delta-debug the op list while pred(result) stays true. pred gets the judge() triple."""
+def shrink(model, case, pred, impl_env=None, spec_needs_impl=False, budget=150, avoid=None):
+    """delta-debug the op list while pred(result) stays true. pred gets the judge() triple.
+    avoid(case) = True for candidates that must not be considered (the region of an open known finding: a case that
+    fails for a new reason must not be minimised into one that fails for the known one)"""
     ops = list(case.ops)
     n = 2
     runs = 0
@@ -327,6 +329,8 @@ def shrink(model, case, pred, impl_env=None, spec_needs_impl=False, budget=150):
         for i in range(0, len(ops), chunk):
             cand = ops[:i] + ops[i + chunk:]
             if not cand:
+                continue
+            if avoid is not None and avoid(Case(case.name, cand, case.oracle, case.kind)):
                 continue
             runs += 1
             res, _ = run_cases(model, [Case(case.name, cand, case.oracle, case.kind)], impl_env, spec_needs_impl)
